@@ -16,7 +16,9 @@ Key grammar
     x:<n>            the float <n>.0: equal to the int n (same hash), but keyed "F:<n>.0" by
                      the id callback - drawn for trees with the id callback only
     u:<n>            native dict {"guid": "gu<n>", "u": n}: unhashable, usable only with
-                     an explicit data_id or in a tree whose id callback keys it
+                     an explicit data_id or in a tree whose id callback keys it.
+                     u:4 is an HDict: its *type* defines __hash__, but hash() of the
+                     value raises TypeError (like a tuple that holds a list)
     f:<n> / g:<n>    nutree.fs.FileSystemEntry file "f<n>.txt" / folder "g<n>"
                      (identity hashed; only in runs with a FileSystemTree slot)
     r:<...>          objects created by a restart (re-bound by the harness)
@@ -33,6 +35,14 @@ class FPerson:
 
     def __str__(self) -> str:  # used by Node.name
         return f"FPerson<{self.name}>"
+
+
+class HDict(dict):
+    """A value that is unhashable although its type defines __hash__ (the shape of a
+    tuple or frozen dataclass that holds a list): hash() raises TypeError at run time."""
+
+    def __hash__(self):  # noqa: D105
+        raise TypeError("unhashable value: HDict")
 
 
 class Obj:
@@ -119,6 +129,8 @@ class Pool:
         if flavour == "o":
             return Obj("g" + rest, "o" + rest)
         if flavour == "u":
+            if int(rest) == 4:
+                return HDict({"guid": "gu4", "u": 4})
             return {"guid": "gu" + rest, "u": int(rest)}
         if flavour in ("f", "g"):
             import importlib
@@ -182,6 +194,8 @@ def decode_value(d: dict, nutree_mod):
             return nutree_mod.DictWrapper({"val": 9, "kind": "user-kind"})
         return nutree_mod.DictWrapper({"val": int(d["v"])})
     if t == "udict":
+        if int(d["v"]) == 4:
+            return HDict({"guid": d["guid"], "u": 4})
         return {"guid": d["guid"], "u": int(d["v"])}
     raise TypeError(t)
 
